@@ -30,6 +30,7 @@ Definition d_cfg (x : sx) : option cfg :=
 Definition d_aval (x : sx) : option aval :=
   match x with
   | L [N 0; N k] => Some (VPre k)
+  | L [N 4; N k] => Some (VOwn k)
   | L [N 1] => Some VNone
   | _ => None
   end.
@@ -84,6 +85,7 @@ Definition e_kind (v : option aval) : sx :=
   match v with
   | None => L [N 9]
   | Some (VPre k) => L [N 0; N k]
+  | Some (VOwn k) => L [N 4; N k]
   | Some VNone => L [N 1]
   | Some (VState s) => L [N 3; e_str s]
   | Some _ => L [N 2]
@@ -190,7 +192,7 @@ Definition d_hop (x : sx) : option hop :=
   | _ => None
   end.
 Definition e_hkind (k : hkind) : sx :=
-  match k with KPre n => L [N 0; N n] | KNone => L [N 1] | KHelper => L [N 2] | KAbsent => L [N 9] end.
+  match k with KPre n => L [N 0; N n] | KOwn n => L [N 4; N n] | KNone => L [N 1] | KHelper => L [N 2] | KAbsent => L [N 9] end.
 (* registered models with their active leaf paths *)
 Definition hmodels := list (mobj * list (list string)).
 Definition obs_hmodel (h : hcfg) (f : list stree) (oa : mobj * list (list string)) : sx :=
@@ -203,7 +205,12 @@ Definition obs_hmodel (h : hcfg) (f : list stree) (oa : mobj * list (list string
                   | KHelper => L [e_bool (is_state_nested act p false); e_bool (is_state_nested act p true)]
                   | _ => L []
                   end;
-                  e_hkind (nested_to_kind h o p)]) (forest_paths f))].
+                  e_hkind (nested_to_kind h o p);
+                  (* calling the to-helper from a configuration with one active state: True, ends in p *)
+                  match nested_to_kind h o p, act with
+                  | KHelper, [_] => L [e_bool true; e_str (join_path (h_sep h) p)]
+                  | _, _ => L []
+                  end]) (forest_paths f))].
 Definition hstep (h : hcfg) (f : list stree) (ms : hmodels) (x : hop) : hmodels * sx :=
   match x with
   | HAddModel o init =>
